@@ -573,7 +573,12 @@ impl Wall {
         };
 
         // Valor teniendo en cuenta el efecto del aislamiento perimetral en régimen estacionario B.4
-        let U = fround2(U_bf + 2.0 * psi_gnd_ext / char_dim);
+        // Sin dimensión característica (solera de superficie nula) no se puede repartir el efecto del perímetro
+        let U = if char_dim > 0.001 {
+            fround2(U_bf + 2.0 * psi_gnd_ext / char_dim)
+        } else {
+            fround2(U_bf)
+        };
         debug!(
             "{} (suelo de sótano) U={:.2} (z={:.2}, d_t={:.2}, B'={:.2}, U_bf={:.2}, psi_ge = {:.3})",
             self.name,
